@@ -1,10 +1,13 @@
 #!/bin/sh
-# usage: trymutant.sh <patch.diff> <PROP>...   applies the patch to /repo, runs the quick checks, reverts
+# usage: trymutant.sh <patch.diff> <PROP>...   applies the patch to the tree under test, runs the quick checks, reverts
+# The tree is /repo, or the scratch clone named by REPO (then GOVC_REPO is set for govc).
 P=$1; shift
-git -C /repo diff --quiet || { echo "REPO HAS UNCOMMITTED CHANGES - commit first"; exit 3; }
-cd /repo && git apply $P || { echo "PATCH DOES NOT APPLY"; exit 2; }
+R=${REPO:-/repo}
+[ "$R" = /repo ] || export GOVC_REPO=$R
+git -C $R diff --quiet || { echo "REPO HAS UNCOMMITTED CHANGES - commit first"; exit 3; }
+cd $R && git apply $P || { echo "PATCH DOES NOT APPLY"; exit 2; }
 # evidence of runs on the broken tree goes to scratch, never to /verif/evidence
 GOVC_EVIDENCE_DIR=$(mktemp -d /dev/shm/mutev.XXXXXX); export GOVC_EVIDENCE_DIR
 for id in "$@"; do (cd /verif && ./check $id quick 2>&1 | grep -E "VIOLATION|^check|KNOWN" | cut -c1-260); done
-cd /repo && git checkout -- . 
+cd $R && git checkout -- . 
 rm -rf "$GOVC_EVIDENCE_DIR"
